@@ -494,6 +494,86 @@ func existsFalseEdges(fn *ssa.Function, r respRoot, existsFn, recorder *ssa.Func
 		out = append(out, hdrExit...)
 		detail = "loop over every element completed"
 	}
+	// batch, written with the standard library: slices.IndexFunc / ContainsFunc over the
+	// whole response slice with a predicate that is the element's Error.Exists();
+	// "found" must leave with an error, "not found" is the edge that admits the reads
+	if r.batch {
+		for _, ci := range callsIn(fn) {
+			call, ok := ci.(*ssa.Call)
+			if !ok || len(call.Call.Args) != 2 {
+				continue
+			}
+			name := calleeName(call)
+			if name != "slices.IndexFunc" && name != "slices.ContainsFunc" {
+				continue
+			}
+			arg := stripConv(call.Call.Args[0])
+			if arg != stripConv(r.val) && !sameVar(arg, r.val) {
+				continue
+			}
+			var pred *ssa.Function
+			switch p := stripConv(call.Call.Args[1]).(type) {
+			case *ssa.MakeClosure:
+				pred = p.Fn.(*ssa.Function)
+			case *ssa.Function:
+				pred = p
+			}
+			if pred == nil || len(pred.Params) != 1 {
+				continue
+			}
+			isExists := true
+			nRet := 0
+			for _, ret := range returnsOf(pred) {
+				for _, lf := range phiLeaves(returnValues(ret)[0]) {
+					nRet++
+					ec, isCall := lf.Val.(*ssa.Call)
+					if !isCall || staticCallee(ec) != existsFn {
+						isExists = false
+						continue
+					}
+					f, base := loadedField(ec.Call.Args[0])
+					root := stripConv(base)
+					if al, ok := root.(*ssa.Alloc); ok {
+						if cv := cellValue(al); cv != nil {
+							root = stripConv(cv)
+						}
+					}
+					if f != r.errFld || root != ssa.Value(pred.Params[0]) {
+						isExists = false
+					}
+				}
+			}
+			if !isExists || nRet == 0 {
+				continue
+			}
+			var found, none []Edge
+			if name == "slices.ContainsFunc" {
+				found, none = boolEdges(call)
+			} else {
+				ge, lt := cmpEdges(fn, func(b *ssa.BinOp) bool {
+					k, ok := constInt(b.Y)
+					return b.X == ssa.Value(call) && ok && ((b.Op == token.GEQ && k == 0) || (b.Op == token.GTR && k == -1) || (b.Op == token.NEQ && k == -1))
+				})
+				lt2, ge2 := cmpEdges(fn, func(b *ssa.BinOp) bool {
+					k, ok := constInt(b.Y)
+					return b.X == ssa.Value(call) && ok && ((b.Op == token.LSS && k == 0) || (b.Op == token.EQL && k == -1) || (b.Op == token.LEQ && k == -1))
+				})
+				found, none = append(ge, ge2...), append(lt, lt2...)
+			}
+			armOK := len(found) > 0
+			for _, e := range found {
+				if g, _ := errorArmLeaves(fn, e, none, recorder); !g {
+					armOK = false
+				}
+			}
+			if !armOK {
+				detail = "an element with Exists()==true does not leave with an error"
+				continue
+			}
+			out = append(out, none...)
+			detail = "no element of the whole slice reports an error (library search)"
+		}
+	}
 	return out, detail
 }
 
